@@ -47,7 +47,10 @@ ASSUMPTIONS = [
 # case carrying "probe": true bypasses every exclusion, so the violation is
 # raised with the distinctive tags {"kind": <key>} (for known-finding probes).
 KNOWN = {
-    # h**alpha underflows to exactly 0.0 (lags below ~1e-154 len): IEEE arithmetic, not a finding
+    # the documented argument (s r / len)^alpha underflows to exactly 0.0 in IEEE double
+    # (lags below ~1e-162 len for alpha = 2): every double implementation of the
+    # documented expression returns rho(0) there.  Matters only for Integral with
+    # nu <~ 0.06 (1 - rho ~ h^nu > 1e-9 at such lags); not a finding, exact region.
     "arg_underflow": True,
     # tplstable_cor: lags with r/len <= isclose window (1e-8) are set to 0 ->
     # rho = 1, although 1-rho ~ (r/len)^(2H) is up to 2e-2 there (H = 0.1)
@@ -100,6 +103,11 @@ KNOWN = {
     # (JBessel(dim=1, nu=2).percentile_scale(0.984375) = 10.54, first crossing 4.99)
     # (fixed in /repo by 6518d71: switch off, assertion live)
     "K4_percentile_later_crossing": False,
+    # repaired percentile_scale: brentq from the bracket [0, 1e-3 per len] gives up after
+    # 100 iterations when the first crossing lies below ~1e-30 len (near-nugget shapes):
+    # Integral(dim=1, nu=0.005).percentile_scale(0.5) raises RuntimeError (crossing 4e-61)
+    # (fixed in /repo by d0e5dfe: switch off, assertion live)
+    "percentile_tiny_crossing_maxiter": False,
 }
 
 
@@ -450,6 +458,12 @@ def _lag_region(spec, r):
     return None
 
 
+def _lag_excluded(spec, r, case):
+    """Region key if lag r lies in a finding region whose switch is ON (else None)."""
+    key = _lag_region(spec, r)
+    return key if key is not None and _known(key, case) else None
+
+
 # ---------------------------------------------------------------------------
 # sub-check: closed forms
 
@@ -716,7 +730,7 @@ def check_ident(case, rec):
                 dict(tags, fn="cor"),
             )
     else:
-        jump = [(_lag_region(spec, x) in ("tpl_zero_window", "integral_zero_window")) for x in r]
+        jump = [(_lag_excluded(spec, x, case) in ("tpl_zero_window", "integral_zero_window")) for x in r]
         sel = ~np.array(jump, dtype=bool)
         if (~sel).any():
             rec.exclude("window_edge_cor_identity")
@@ -814,7 +828,7 @@ def check_ident(case, rec):
         # relative error of the radius ~ 1e-15 * cond; |h rho'(h)| <= 1 (sqrt(h) for JBessel)
         slope = max(1.0, math.sqrt(hmax)) if cls == "JBessel" else 1.0
         # jumps of registered findings would be hit only by chance: skip those lags
-        ok = np.array([_lag_region(spec, x) is None for x in rad], dtype=bool)
+        ok = np.array([_lag_excluded(spec, x, case) is None for x in rad], dtype=bool)
         if ok.any():
             # + evaluation noise of exp_int next to an integer order (see _order_amp)
             tsp = 1e-12 + 1e-14 * cond * slope + 5e-15 * _order_amp(spec)
@@ -834,7 +848,7 @@ def check_ident(case, rec):
         zeta = np.array(case["zeta"], dtype=float) * R_geo  # great-circle distance in geo units
         chord = R_geo * geo.chord_from_arc(zeta / R_geo)
         require(abs(m.geo_scale - R_geo) <= 0, "geo_scale not stored", tags)
-        ok = np.array([_lag_region(spec, x) is None for x in chord], dtype=bool)
+        ok = np.array([_lag_excluded(spec, x, case) is None for x in chord], dtype=bool)
         if ok.any():
             for f, g, name, sc in (
                 (m.vario_yadrenko, fV, "vario_yadrenko", sill),
@@ -1101,11 +1115,6 @@ def check_intscale(case, rec):
             dict(tags, kind="integral_diverges"),
         )
         return
-    if cls in ("Stable", "TPLStable") and o.get("alpha", 2.0) <= 0.35:
-        # edge of the region the library itself flags as unstable (alpha < 0.3): the default
-        # QUADPACK integral of the extremely slowly decaying correlation is only good to ~1e-4
-        rec.exclude("stable_alpha<=0.35_integral_scale")
-        return
     tol = _int_tolerance(spec)
     region = None
     if cls == "Matern" and o["nu"] > cf.MATERN_GAUSS_SWITCH:
@@ -1347,12 +1356,34 @@ def check_percentile(case, rec):
     if reg is not None and _known(reg, case):
         rec.exclude(reg)
         return
-    if want <= 2e-8 * spec["len_scale"] / (spec.get("rescale") or 1.0):
-        # near-nugget shapes (e.g. Integral nu ~ 1e-3): the percentile is reached inside the library's
-        # zero-lag windows (known low-severity findings tpl_zero_window / integral_zero_window)
-        rec.exclude("percentile_inside_zero_lag_window")
-        return
-    got = lib(m.percentile_scale, per, _what="percentile_scale", _tags=tags)
+    try:
+        with common.quiet():
+            got = m.percentile_scale(per)
+    except RuntimeError as exc:
+        # brentq (repaired percentile_scale, 6518d71) starts from the bracket
+        # [0, 1e-3 per len_rescaled] and stops after 100 iterations: bisection is
+        # only guaranteed to resolve crossings above 2^-100 of that bracket / rtol
+        unit = _units(spec)["up"] if (cls in TPL and o["len_low"] > 0) else _units(spec)["h"]
+        if want < 1e-19 * per * unit:
+            rec.label("percentile_tiny_crossing")
+            _finding(
+                rec,
+                case,
+                "percentile_tiny_crossing_maxiter",
+                f"{cls}{spec.get('opt')} dim={dim}: percentile_scale({per!r}) raised RuntimeError ({exc}); "
+                f"first crossing at {want!r}",
+                dict(tags, exc="RuntimeError"),
+            )
+            return
+        raise Violation(
+            f"{cls}{spec.get('opt')} dim={dim}: percentile_scale({per!r}) raised RuntimeError: {exc} (first crossing {want!r})",
+            tags=dict(tags, kind="exception", exc="RuntimeError"),
+        ) from exc
+    except Exception as exc:  # noqa: BLE001
+        raise Violation(
+            f"{cls}{spec.get('opt')} dim={dim}: percentile_scale({per!r}) raised {type(exc).__name__}: {exc}",
+            tags=dict(tags, kind="exception", exc=type(exc).__name__),
+        ) from exc
     got = float(got)
     rho = float(cf.correlation(cls, dim, spec["len_scale"], spec.get("rescale"), o, [abs(got)])[0]) if math.isfinite(got) else math.nan
     res = abs(1 - rho - per)
